@@ -1066,9 +1066,10 @@ def oracle(case, obs):
         return oracle_common(obs, obs, "file")
     r1 = obs["run1"]
     if r1.get("run_err"):
-        if r1["run_err"] != "DGE":
-            return f"internal-error: first run raised {r1['run_err']}: {r1.get('msg')}"
-        return None           # premise (the run completes) does not hold
+        # premise (the run completes) does not hold.  How a run fails is not this property's
+        # business (e.g. a table name containing a double quote + random_reference escapes as
+        # sqlite3 OperationalError: that belongs to C20); the outcome is counted in stats().
+        return None
     deferred = None
     m = oracle_common(obs, r1, "file")
     if m and not m.startswith("row-valued-field-dropped:"):
@@ -1412,15 +1413,15 @@ def generate(rng, tier):
     quick = tier == "quick"
     cases = []
     cases.extend(boundary_cases(rng))
-    for _ in range(140 if quick else 6000):
+    for _ in range(140 if quick else 2200):
         cases.append(gen_recipe_case(rng))
-    for _ in range(24 if quick else 600):
+    for _ in range(24 if quick else 250):
         cases.append(gen_recipe_case(rng, findings=True))
-    for _ in range(160 if quick else 8000):
+    for _ in range(160 if quick else 3000):
         cases.append(gen_direct_case(rng))
-    for _ in range(24 if quick else 600):
+    for _ in range(24 if quick else 250):
         cases.append(gen_direct_case(rng, findings=True))
-    for _ in range(120 if quick else 2500):
+    for _ in range(120 if quick else 1000):
         cases.append(gen_malformed_case(rng))
     return cases
 
